@@ -56,17 +56,25 @@ PROPS = {
     'C08': dict(
         title='Filter text and filter tree correspond',
         verus=[('u_filter', [r'^Lexer::parse_path$', r'^Parser::to_cmp_op$', r'^Lexer::greater_or_less$', r'^parse_id$', r'^parse_literal$']),
-               ('u_enc', [r'^Number::to_zinc$', r'^write_quoted_str$', r'^Str::to_zinc$'])],
+               ('u_enc', [r'^Number::to_zinc$', r'^write_quoted_str$', r'^Str::to_zinc$']),
+               ('u_fprint', [r'::fmt$', r'^lemma_op_pieces$', r'^(fp_|join_|path_text|op_text)'])],
         kani=[],
         witness='enum:filter-print-parse',
         design_ref='DESIGN.md section 4, C08',
-        level_text=('Proof (Verus) of the parser-side clauses only: a path token has 1 + (number of -> consumed) segments, i.e. it '
+        level_text=('Proof (Verus), parser side: a path token has 1 + (number of -> consumed) segments, i.e. it '
                     'ends at the first token that is not ->, and its first segment is the identifier read; to_cmp_op maps the six '
-                    'operator tokens one-to-one to the six operators and rejects everything else. Print side, literals only: a finite unit-less number '
+                    'operator tokens one-to-one to the six operators and rejects everything else. Print side (u_fprint): a specification fp_or / fp_and / '
+                    'fp_term of the text of a filter tree is written from the filter grammar -- operands of `or` separated by " or ", operands of `and` by '
+                    '" and ", a group between "( " and " )", `not path`, `path op literal` with the six operator spellings, `^symbol`, `path *== ref`, '
+                    '`rel? [^term] [@ref]`, path segments joined by -> -- and the real Display impls of Filter, Or, And, Term, Parens, Has, Missing, IsA, Cmp, '
+                    'WildcardEq, Relation, Path and Id are proved to write exactly that text for every tree (loops over operands by invariant, mutual recursion '
+                    'by a decreases measure on the tree). Literals: a finite unit-less number '
                     'literal is printed as the Display text of exactly its f64 (no detour through an integer) and a string literal as " + enc(s) + ".'),
-        not_decided=('The print side: Display of every node goes through write!/core::fmt, so print-then-parse = identity cannot be '
-                     'stated; literal values print through the Zinc encoder; and/or precedence shape; operator spelling clauses of '
-                     'Lexer::read.'),
+        not_decided=('print-then-parse = identity as a theorem: the parser is proved panic-free and terminating with the clauses above, not against a '
+                     'token-level grammar of its own, so the two halves are joined only by the bounded enumerator enum:filter-print-parse (49 filter texts '
+                     'covering every term kind and literal kind incl. refs with display names and zoned timestamps, plus 6 precedence/grouping shapes); '
+                     'core::fmt is trusted to render each format string as its literal pieces around the Display texts of the arguments; literal values '
+                     'print through the Zinc encoder (decided in u_enc); operator spelling clauses of Lexer::read.'),
     ),
     'C19': dict(
         title='Kinds, typed accessors and grid construction are coherent',
